@@ -28,15 +28,26 @@
 (* global), variant 0..31.  The behaviour of EVERY configuration of p is    *)
 (* the behaviour of p (splitting does not change behaviour).               *)
 (*                                                                         *)
+(* Namespace chains: a namespace is itself a name of the file that wrote   *)
+(* the `use` (tests/import/circular_main.sy, use_folder.sy), so a.b.x is   *)
+(* "x of the file that a's file calls b" - resolved left to right.         *)
+(* Standard library: only a path text that consists of ONE component that  *)
+(* is a std module name (`use list`, `use /math`, `use set/`) can mean the  *)
+(* std module; a path with a folder component names a project file         *)
+(* whatever its components are called (`use geometry/math as gm`).  Which  *)
+(* of the two a one-component std name means when a project file of that   *)
+(* name exists is not documented anywhere: such texts are never written.   *)
+(*                                                                         *)
 (* Out of the universe on purpose: `from` of a name that is itself only    *)
 (* imported (tests/import/faulty_from_circular.sy documents an error),     *)
-(* access through a namespace to what that file itself only imported       *)
-(* (a.b.x, or a.x where a has `from b use x`), `use /` without alias,      *)
-(* the same file under one implicit name by two path texts.                *)
+(* a.x where a has `from b use x` (re-export), `use /` without alias, the  *)
+(* same file under one implicit name by two path texts, one-component      *)
+(* path texts that are std module names.                                   *)
 (***************************************************************************)
 EXTENDS SyltSem, SyltAst
 
-CONSTANT Tree       \* sequence of file paths relative to the project root; Tree[1] is the file being run
+CONSTANTS Tree,     \* sequence of file paths relative to the project root; Tree[1] is the file being run
+          ProgSet   \* the base programs (numbers) explored with this tree
 
 Range(s) == {s[q] : q \in 1..Len(s)}
 Ch(s, q) == SubSeq(s, q, q)
@@ -79,9 +90,14 @@ CandSeq(f, g) ==
          THEN SubSeq(DirOf(g), Len(DirOf(f)) + 1, Len(DirOf(g))) ELSE "",
       IF IsExports(g) THEN "/" \o DirOf(g) ELSE "">>
 
+\* the standard library's module names: every file sees namespaces of these names (the std preamble), and a
+\* one-component path text of such a name is not (known to be) a project file
+StdNames == {"common", "container", "dict", "list", "math", "maybe", "set", "unsafe"}
+Specified(t) == Body(t) \notin StdNames
+
 AllCand == UNION {Range(CandSeq(f, g)) : f \in Range(Tree), g \in Range(Tree)} \ {""}
-PathTexts(f, g) == {t \in AllCand : PathToFile(f, t) = g}
-PathSeq(f, g) == SelectSeq(CandSeq(f, g), LAMBDA t : t # "" /\ PathToFile(f, t) = g)
+PathTexts(f, g) == {t \in AllCand : Specified(t) /\ PathToFile(f, t) = g}
+PathSeq(f, g) == SelectSeq(CandSeq(f, g), LAMBDA t : t # "" /\ Specified(t) /\ PathToFile(f, t) = g)
 
 \* The functions above, tabulated once over the tree and the candidate texts (TLCEval makes the tables explicit
 \* values; without it TLC would re-evaluate the character-level definitions at every use).
@@ -99,11 +115,13 @@ PathsOK ==
           /\ \A t \in PathTexts(f, g) : Rooted(t) => \A f2 \in Range(Tree) : PathToFile(f2, t) = g
     /\ \A g \in Range(Tree) : IsExports(g) => PathToFile(Main, "/" \o DirOf(g)) = g
     /\ \E f \in Range(Tree), t \in AllCand : PathToFile(f, t) \notin Range(Tree)           \* and some name no file
+    \* a std module name at any position of a path of two or more components is just a file or folder name
+    /\ \A f \in Range(Tree), g \in Range(Tree) : \A t \in PathTexts(f, g) : NsName(t) \in StdNames => LastSlash(Body(t)) > 0
 
 ---------------------------------------------------------------------------
 (* Base programs.  Global binder ids < 10, parameters and locals >= 10. *)
 Pr(e) == Ex(Call(Std("print"), <<e>>))     \* SyltAst!Print is shadowed by TLC!Print here
-ProgNames == <<"calls", "cell", "types", "init">>
+ProgNames == <<"calls", "cell", "types", "init", "shadow">>
 NProgs == Len(ProgNames)
 
 Prog(p) ==
@@ -140,6 +158,11 @@ Prog(p) ==
        DefN(4, "const", TNone, Fn(<<>>, TInt, <<Asg("=", V(2), Bin("+", V(2), I(5))), Ret(Bin("+", V(2), I(2)))>>), "fb"),
        DefN(5, "const", TNone, Fn(<<>>, TVoid, << Pr(Bin("+", Call(V(3), <<>>), Call(V(4), <<>>))),
                                                  Pr(Call(V(3), <<>>)) >>), "start") >>
+    [] p = 5 ->       \* globals named like globals of the std module `math` (pi, tau, e are floats there)
+    << DefN(1, "const", TInt, I(3), "pi"),
+       DefN(2, "const", TInt, Bin("+", V(1), V(1)), "tau"),
+       DefN(3, "const", TInt, I(2), "e"),
+       DefN(4, "const", TNone, Fn(<<>>, TVoid, << Pr(V(2)), Pr(Bin("*", V(1), V(3))), Pr(V(3)) >>), "start") >>
 
 ItemName(top) == IF top.k = "def" THEN top.n ELSE top.name
 ItemKind(top) == CASE top.k = "def" -> "value" [] top.k = "enum" -> "enum" [] top.k = "blobdecl" -> "blob"
@@ -242,12 +265,14 @@ UsedFiles(pl) == {pl[x] : x \in DOMAIN pl}
 MaxOther == 3       \* at most three files besides the main file (a diamond needs three)
 Applicable(p, m) == m \in 0..(NPlaces(p) - 1) /\ Cardinality(UsedFiles(PlaceOf(p, m)) \ {Main}) <= MaxOther
 
-NVariants == 32     \* v % 8: style offset, path choice, cycle and decoy flags; v \div 8: how styles vary from edge to edge
+NVariants == 64     \* v % 8: style offset, path choice, cycle and decoy flags; (v \div 8) % 4: how styles vary from
+                    \* edge to edge; v \div 32: namespace chains
 StrideOf(v) == ((v \div 8) + 1) % 4     \* 0: all references in one style; 1..3: neighbouring references differ by 1..3
 Styles == <<"use", "useas", "from", "fromas">>
 Bit(v, n) == (v \div PowN(2, n)) % 2
 CycOf(v) == (Bit(v, 0) + Bit(v, 2)) % 2 = 1           \* orthogonal to style (v % 4) and path choice (bit 2)
 DecoyOf(v) == (Bit(v, 1) + Bit(v, 2)) % 2 = 1
+ChainOf(v) == Bit(v, 5) = 1     \* references in `use` style go through one, in `use as` style through two other files
 
 UseStmt(path, alias) == [k |-> "use", path |-> path, alias |-> alias, names |-> <<>>]
 FromStmt(path, names) == [k |-> "from", path |-> path, alias |-> "", names |-> names]
@@ -283,16 +308,39 @@ ImportBindings(f, stmts, gl) ==
 Bindings(f, stmts, gl) ==
     {[name |-> x, kind |-> "global", file |-> f, item |-> x] : x \in gl[f]} \cup ImportBindings(f, stmts, gl)
 
-\* a reference is [ns, name]: `name` or `ns.name`
-Resolve(bs, ref, gl) ==
-    IF ref.ns = ""
-    THEN LET c == {b \in bs : b.name = ref.name /\ b.kind = "global"} IN
-         IF c = {} THEN [file |-> "", item |-> ""] ELSE LET b == CHOOSE b \in c : TRUE IN [file |-> b.file, item |-> b.item]
-    ELSE LET c == {b \in bs : b.name = ref.ns /\ b.kind = "ns"} IN
-         IF c = {} THEN [file |-> "", item |-> ""]
-         ELSE LET g == (CHOOSE b \in c : TRUE).file IN
-              IF g \in DOMAIN gl /\ ref.name \in gl[g] THEN [file |-> g, item |-> ref.name] ELSE [file |-> "", item |-> ""]
+\* A reference is [ns, name]: ns a sequence of namespace names, `name`, `a.name`, `a.b.name`, ...
+\* stm[f] = the import statements of file f.  A namespace chain is followed from left to right: the first name is
+\* looked up among the namespaces of the file the reference is written in, each further name among the namespaces
+\* of the file reached so far; the global itself must be one the last file defines.
+RECURSIVE WalkNs(_, _, _, _, _)
+WalkNs(f, nss, q, stm, gl) ==
+    IF q > Len(nss) THEN f
+    ELSE LET c == {b \in ImportBindings(f, stm[f], gl) : b.kind = "ns" /\ b.name = nss[q]} IN
+         IF c = {} \/ (CHOOSE b \in c : TRUE).file \notin DOMAIN stm THEN ""
+         ELSE WalkNs((CHOOSE b \in c : TRUE).file, nss, q + 1, stm, gl)
+
 Unresolved == [file |-> "", item |-> ""]
+Resolve(f, stm, ref, gl) ==
+    IF ref.ns = <<>>
+    THEN LET c == {b \in Bindings(f, stm[f], gl) : b.name = ref.name /\ b.kind = "global"} IN
+         IF c = {} THEN Unresolved ELSE LET b == CHOOSE b \in c : TRUE IN [file |-> b.file, item |-> b.item]
+    ELSE LET g == WalkNs(f, ref.ns, 1, stm, gl) IN
+         IF g # "" /\ ref.name \in gl[g] THEN [file |-> g, item |-> ref.name] ELSE Unresolved
+
+\* Twins must not depend on what this specification leaves open: a reference counts as "possibly visible" also when
+\* it starts with a std namespace or ends in ANY name the reached file can see (what a file merely imports and
+\* thereby may re-export through its namespace is outside the universe).
+PossiblyVisible(f, stm, ref, gl) ==
+    IF ref.ns = <<>> THEN Resolve(f, stm, ref, gl) # Unresolved
+    ELSE \/ ref.ns[1] \in StdNames
+         \/ LET g == WalkNs(f, ref.ns, 1, stm, gl) IN
+            g # "" /\ \E b \in Bindings(g, stm[g], gl) : b.name = ref.name
+
+RECURSIVE JoinDot(_, _)
+JoinDot(nss, q) == IF q > Len(nss) THEN "" ELSE (IF q > 1 THEN "." ELSE "") \o nss[q] \o JoinDot(nss, q + 1)
+RECURSIVE Flatten(_, _)
+Flatten(ss, q) == IF q > Len(ss) THEN <<>> ELSE ss[q] \o Flatten(ss, q + 1)
+Reverse(sq) == [q \in 1..Len(sq) |-> sq[Len(sq) + 1 - q]]
 
 RECURSIVE LoadW(_, _, _)
 \* loading: a work list and a visited list; a file already visited is not loaded again
@@ -319,57 +367,84 @@ Derive(p, m, v) ==
       needs   == SelectSeq(prod, LAMBDA e : pl[e.x] # e.f /\ \E y \in DOMAIN pl : pl[y] = e.f /\ e.x \in refs[y])
       pathFor(f, g) == LET ps == PathSeqT[f][g] IN ps[((Bit(v, 2) + m + FileIdxOf(f) + FileIdxOf(g)) % Len(ps)) + 1]
       style0(j) == Styles[((v + j * StrideOf(v)) % 4) + 1]
+      chainOn == ChainOf(v)
+      \* a hop of a namespace chain: file a says `use <b>`, under the implicit name where that is unproblematic
+      hop(a, b) == LET path == pathFor(a, b)
+                       implicit == (FileIdxOf(a) + FileIdxOf(b) + Bit(v, 1)) % 2 = 0
+                                   /\ NsNameOf(path) \notin ({"", "exports"} \cup StdNames)
+                   IN UseStmt(path, IF implicit THEN "" ELSE "ns" \o ToString(FileIdxOf(b)))
+      nsOf(st) == IF st.alias = "" THEN NsNameOf(st.path) ELSE st.alias
       edge(j) == LET e    == needs[j]
                      g    == pl[e.x]
                      path == pathFor(e.f, g)
                      st0  == style0(j)
-                     \* `use /` has no implicit name; if an earlier `use` of the same file already holds the same implicit
-                     \* name for a different file (two exports.sy), this one takes an alias ("since the namespace is already used")
-                     st   == IF st0 = "use" /\ (NsNameOf(path) = ""
+                     \* `use /` has no implicit name; every file already sees the std modules as namespaces of their names;
+                     \* if an earlier `use` of the same file already holds the same implicit name for a different file
+                     \* (two exports.sy), this one takes an alias ("since the namespace is already used")
+                     st1  == IF st0 = "use" /\ (NsNameOf(path) \in ({""} \cup StdNames)
                                                \/ \E j2 \in 1..(j - 1) :
                                                      /\ needs[j2].f = e.f /\ style0(j2) = "use" /\ pl[needs[j2].x] # g
                                                      /\ NsNameOf(pathFor(e.f, pl[needs[j2].x])) = NsNameOf(path))
                              THEN "useas" ELSE st0
                      al   == "ns" \o ToString(FileIdxOf(g))
-                 IN [f |-> e.f, x |-> e.x, g |-> g, st |-> st, path |-> path, form |-> PathFormT[path],
-                     ns |-> CASE st = "use" -> NsNameOf(path) [] st = "useas" -> al [] OTHER -> "",
-                     name |-> IF st = "fromas" THEN e.x \o "R" ELSE e.x,
-                     stmt |-> CASE st = "use"    -> UseStmt(path, "")
-                                [] st = "useas"  -> UseStmt(path, al)
-                                [] st = "from"   -> FromStmt(path, <<[name |-> e.x, as |-> ""]>>)
-                                [] st = "fromas" -> FromStmt(path, <<[name |-> e.x, as |-> e.x \o "R"]>>)]
+                     \* namespace chains: through one (style use) or two (style use-as) other files of the configuration
+                     others == SelectSeq(used, LAMBDA h : h # e.f /\ h # g)
+                     rot(q) == others[((j + v + q) % Len(others)) + 1]
+                     depth == IF ~chainOn \/ st0 \notin {"use", "useas"} \/ Len(others) = 0 THEN 0
+                              ELSE IF st0 = "useas" /\ Len(others) >= 2 THEN 3 ELSE 2
+                     via  == CASE depth = 0 -> <<>> [] depth = 2 -> <<rot(0)>> [] depth = 3 -> <<rot(0), rot(1)>>
+                     cf   == <<e.f>> \o via \o <<g>>
+                     hops == [q \in 1..(Len(cf) - 1) |-> [f |-> cf[q], stmt |-> hop(cf[q], cf[q + 1])]]
+                 IN IF depth = 0
+                    THEN [f |-> e.f, x |-> e.x, g |-> g, st |-> st1, path |-> path, form |-> PathFormT[path], via |-> <<>>,
+                          ns |-> CASE st1 = "use" -> <<NsNameOf(path)>> [] st1 = "useas" -> <<al>> [] OTHER -> <<>>,
+                          name |-> IF st1 = "fromas" THEN e.x \o "R" ELSE e.x,
+                          stmt |-> CASE st1 = "use"    -> UseStmt(path, "")
+                                     [] st1 = "useas"  -> UseStmt(path, al)
+                                     [] st1 = "from"   -> FromStmt(path, <<[name |-> e.x, as |-> ""]>>)
+                                     [] st1 = "fromas" -> FromStmt(path, <<[name |-> e.x, as |-> e.x \o "R"]>>),
+                          extra |-> <<>>]
+                    ELSE [f |-> e.f, x |-> e.x, g |-> g, st |-> "chain" \o ToString(depth), path |-> hops[1].stmt.path,
+                          form |-> PathFormT[hops[1].stmt.path], via |-> via,
+                          ns |-> [q \in DOMAIN hops |-> nsOf(hops[q].stmt)], name |-> e.x,
+                          stmt |-> hops[1].stmt, extra |-> SubSeq(hops, 2, Len(hops))]
       edges   == [j \in 1..Len(needs) |-> edge(j)]
       edgesOf(f) == SelectSeq(edges, LAMBDA e : e.f = f)
-      \* statements of f: one `use` per (path, alias), one `from` per path listing all its names, in edge order
+      allExtra == Flatten([j \in DOMAIN edges |-> edges[j].extra], 1)
+      \* statements of f: one `use` per (path, alias), one `from` per path listing all its names, in edge order,
+      \* then the `use` statements f contributes to other files' namespace chains
       RECURSIVE Merge(_, _, _)
       Merge(es, q, acc) ==
           IF q > Len(es) THEN acc
-          ELSE LET s == es[q].stmt
-                   same == {r \in DOMAIN acc : acc[r].k = s.k /\ acc[r].path = s.path /\ acc[r].alias = s.alias} IN
-               IF same = {} THEN Merge(es, q + 1, Append(acc, s))
-               ELSE IF s.k = "use" THEN Merge(es, q + 1, acc)
+          ELSE LET st == es[q]
+                   same == {r \in DOMAIN acc : acc[r].k = st.k /\ acc[r].path = st.path /\ acc[r].alias = st.alias} IN
+               IF same = {} THEN Merge(es, q + 1, Append(acc, st))
+               ELSE IF st.k = "use" THEN Merge(es, q + 1, acc)
                ELSE LET r == CHOOSE r \in same : TRUE IN
-                    Merge(es, q + 1, [acc EXCEPT ![r].names = @ \o s.names])
-      fwd(f)  == Merge(edgesOf(f), 1, <<>>)
+                    Merge(es, q + 1, [acc EXCEPT ![r].names = @ \o st.names])
+      fwd(f)  == LET own1 == edgesOf(f)
+                     ext1 == SelectSeq(allExtra, LAMBDA h : h.f = f) IN
+                 Merge([q \in DOMAIN own1 |-> own1[q].stmt] \o [q \in DOMAIN ext1 |-> ext1[q].stmt], 1, <<>>)
       fwdTargets(f) == {FileOf(f, fwd(f)[q].path) : q \in DOMAIN fwd(f)}
       \* cycles: a file imports one of its importers back (A uses B uses A) unless it does so anyway
       importers(g) == SelectSeq(used, LAMBDA f : f # g /\ g \in fwdTargets(f))
       back(g) == IF cycOn /\ g # Main /\ Len(importers(g)) > 0 /\ importers(g)[1] \notin fwdTargets(g)
                  THEN LET f0 == importers(g)[1]
                           path == pathFor(g, f0)
-                          implicit == (FileIdxOf(g) + Bit(v, 1)) % 2 = 0 /\ NsNameOf(path) # ""
+                          implicit == (FileIdxOf(g) + Bit(v, 1)) % 2 = 0 /\ NsNameOf(path) \notin ({""} \cup StdNames)
                                       /\ \A q \in DOMAIN fwd(g) : ~(fwd(g)[q].k = "use" /\ fwd(g)[q].alias = ""
                                                                    /\ NsNameOf(fwd(g)[q].path) = NsNameOf(path))
                       IN <<UseStmt(path, IF implicit THEN "" ELSE "bk" \o ToString(FileIdxOf(f0)))>>
                  ELSE <<>>
-      stmtsOf(f) == fwd(f) \o back(f)
       isUsed(f) == f \in UsedFiles(pl)
+      stm == TLCEval([f \in Range(Tree) |-> IF isUsed(f) THEN fwd(f) \o back(f) ELSE <<>>])
+      stmtsOf(f) == stm[f]
       edgeSet == {<<edges[j].f, edges[j].x>> : j \in DOMAIN edges}
       \* same-named decoy globals in files that neither define nor refer to the real one
       decoys(f) == IF decoyOn /\ isUsed(f) THEN {x \in Range(items) : pl[x] # f /\ <<f, x>> \notin edgeSet} ELSE {}
       own(f) == {x \in DOMAIN pl : pl[x] = f}
-      gl == [f \in Range(Tree) |-> own(f) \cup decoys(f)]
-      imp == [f \in Range(Tree) |-> IF isUsed(f) THEN [q \in DOMAIN stmtsOf(f) |-> FileOf(f, stmtsOf(f)[q].path)] ELSE <<>>]
+      gl == TLCEval([f \in Range(Tree) |-> own(f) \cup decoys(f)])
+      imp == TLCEval([f \in Range(Tree) |-> [q \in DOMAIN stmtsOf(f) |-> FileOf(f, stmtsOf(f)[q].path)]])
       layout == LayoutOf(v + (m \div 5))
       fileRec(f) ==
           [path |-> f,
@@ -398,27 +473,46 @@ Derive(p, m, v) ==
               \* thereby may re-export through its namespace is outside the universe)
               namesIn(h) == {b.name : b \in Bindings(h, stmtsOf(h), gl)}
               otherNs == {b \in bs : b.kind = "ns" /\ b.file # e.g /\ e.x \notin namesIn(b.file)}
+              isChain == Len(e.ns) >= 2
+              front == IF isChain THEN SubSeq(e.ns, 1, Len(e.ns) - 1) ELSE <<>>
+              \* the file in which the last name of the chain is looked up, and a namespace f sees but that file does not
+              pen == IF isChain THEN e.via[Len(e.via)] ELSE f
+              foreignNs == {b \in bs : b.kind = "ns" /\ \A b2 \in ImportBindings(pen, stmtsOf(pen), gl) : b2.name # b.name}
               cands ==
                 <<mk("drop-import", dropped, ref0)>>
-                \o (IF e.st \in {"use", "useas"} THEN <<mk("unqualified", ss, [ns |-> "", name |-> e.x])>> ELSE <<>>)
-                \o (IF e.st = "useas" /\ NsNameOf(e.path) # "" THEN <<mk("alias-bypass", ss, [ns |-> NsNameOf(e.path), name |-> e.x])>> ELSE <<>>)
-                \o (IF e.st = "fromas" THEN <<mk("alias-bypass", ss, [ns |-> "", name |-> e.x])>> ELSE <<>>)
+                \o (IF e.st \in {"use", "useas"} \/ isChain THEN <<mk("unqualified", ss, [ns |-> <<>>, name |-> e.x])>> ELSE <<>>)
+                \o (IF e.st = "useas" /\ NsNameOf(e.path) # "" THEN <<mk("alias-bypass", ss, [ns |-> <<NsNameOf(e.path)>>, name |-> e.x])>> ELSE <<>>)
+                \o (IF e.st = "fromas" THEN <<mk("alias-bypass", ss, [ns |-> <<>>, name |-> e.x])>> ELSE <<>>)
                 \o (IF e.st \in {"use", "useas"} /\ otherNs # {}
-                    THEN <<mk("wrong-namespace", ss, [ns |-> (CHOOSE b \in otherNs : TRUE).name, name |-> e.x])>> ELSE <<>>)
-                \o (IF e.st \in {"use", "useas"} THEN <<mk("unknown-namespace", ss, [ns |-> "zz", name |-> e.x])>> ELSE <<>>)
+                    THEN <<mk("wrong-namespace", ss, [ns |-> <<(CHOOSE b \in otherNs : TRUE).name>>, name |-> e.x])>> ELSE <<>>)
+                \o (IF e.st \in {"use", "useas"} THEN <<mk("unknown-namespace", ss, [ns |-> <<"zz">>, name |-> e.x])>> ELSE <<>>)
+                \* chains: the last hop left out, the chain written backwards, a last hop nobody imports, a last hop
+                \* that only the referring file imports (what f imports is not what the intermediate file imports)
+                \o (IF isChain THEN <<mk("chain-skip", ss, [ns |-> front, name |-> e.x]),
+                                      mk("chain-reversed", ss, [ns |-> Reverse(e.ns), name |-> e.x]),
+                                      mk("chain-unknown-hop", ss, [ns |-> Append(front, "zz"), name |-> e.x])>> ELSE <<>>)
+                \o (IF isChain /\ foreignNs # {}
+                    THEN <<mk("chain-foreign-hop", ss, [ns |-> Append(front, (CHOOSE b \in foreignNs : TRUE).name), name |-> e.x])>>
+                    ELSE <<>>)
           IN \* a twin is only a twin if, by this specification, its reference does NOT resolve
-             SelectSeq(cands, LAMBDA t : Resolve(Bindings(f, t.stmts, gl), [ns |-> t.ns, name |-> t.name], gl) = Unresolved)
+             SelectSeq(cands, LAMBDA t : ~PossiblyVisible(f, [stm EXCEPT ![f] = t.stmts], [ns |-> t.ns, name |-> t.name], gl))
       load == LoadW(<<Main>>, <<>>, imp)
       strict(f) == ReachSet(Range(imp[f]), imp)
   IN [p |-> p, m |-> m, v |-> v, prog |-> ProgNames[p],
-      place |-> pl, gl |-> gl, imp |-> imp,
+      place |-> pl, gl |-> gl, imp |-> imp, stm |-> stm,
       files |-> [q \in DOMAIN used |-> fileRec(used[q])],
       edges |-> [j \in DOMAIN edges |-> [f |-> edges[j].f, x |-> edges[j].x, g |-> edges[j].g, st |-> edges[j].st,
-                                         path |-> edges[j].path, form |-> edges[j].form, ns |-> edges[j].ns, name |-> edges[j].name]],
+                                         path |-> edges[j].path, form |-> edges[j].form, ns |-> edges[j].ns,
+                                         name |-> edges[j].name, via |-> edges[j].via]],
       twins |-> IF te = 0 THEN <<>> ELSE twinsOf(edges[te]),
       load |-> load,
-      cyc |-> cycOn, decoy |-> decoyOn, layout |-> layout,
+      cyc |-> cycOn, decoy |-> decoyOn, layout |-> layout, chain |-> chainOn,
       cycle |-> \E f \in Range(load) : f \in strict(f),
+      \* a chain a.b.x written in a file that imports both a and b, which import each other
+      chaincycle |-> \E j \in DOMAIN edges : LET e == edges[j] IN
+                        /\ Len(e.via) = 1
+                        /\ e.g \in Range(imp[e.via[1]]) /\ e.via[1] \in Range(imp[e.g])
+                        /\ e.g \in Range(imp[e.f]) /\ e.via[1] \in Range(imp[e.f]),
       diamond |-> \E t \in Range(load), a \in Range(load), b \in Range(load), c \in Range(load) :
                      /\ Cardinality({t, a, b, c}) = 4
                      /\ a \in Range(imp[t]) /\ b \in Range(imp[t]) /\ c \in Range(imp[a]) /\ c \in Range(imp[b])]
@@ -426,44 +520,47 @@ Derive(p, m, v) ==
 \* which configurations a run explores: nv variants per placement (quick 1, thorough 16 or 32), evenly spread over
 \* 0..NVariants-1 and offset by placement number and seed
 VariantsFor(nv, seed, m) == IF m = 0 THEN {0} ELSE {(m + seed + q * (NVariants \div nv)) % NVariants : q \in 0..(nv - 1)}
-PlacementIds == UNION {{<<p, m>> : m \in {m \in 0..(NPlaces(p) - 1) : Applicable(p, m)}} : p \in 1..NProgs}
+PlacementIds == UNION {{<<p, m>> : m \in {m \in 0..(NPlaces(p) - 1) : Applicable(p, m)}} : p \in ProgSet}
 UniverseIds(nv, seed) == UNION {{<<pm[1], pm[2], v>> : v \in VariantsFor(nv, seed, pm[2])} : pm \in PlacementIds}
 
 ---------------------------------------------------------------------------
 (* Spec-level properties of a derived configuration d *)
-FileStmts(d, f) == LET c == {q \in DOMAIN d.files : d.files[q].path = f} IN
-                   IF c = {} THEN <<>> ELSE d.files[CHOOSE q \in c : TRUE].stmts
 FileRefs(d, f) == d.files[CHOOSE q \in DOMAIN d.files : d.files[q].path = f].refs
 RefFor(d, f, x) == LET rs == FileRefs(d, f)
                        c == {q \in DOMAIN rs : rs[q].item = x} IN
-                   IF d.place[x] = f \/ c = {} THEN [ns |-> "", name |-> x]
+                   IF d.place[x] = f \/ c = {} THEN [ns |-> <<>>, name |-> x]
                    ELSE [ns |-> rs[CHOOSE q \in c : TRUE].ns, name |-> rs[CHOOSE q \in c : TRUE].name]
 
-\* names visible in a file are unambiguous
+\* names visible in a file are unambiguous, also with respect to the std namespaces every file sees
 UniqueNames(d) == \A q \in DOMAIN d.files :
     LET bs == Bindings(d.files[q].path, d.files[q].stmts, d.gl) IN
-    \A b1 \in bs, b2 \in bs : b1.name = b2.name => b1 = b2
+    /\ \A b1 \in bs, b2 \in bs : b1.name = b2.name => b1 = b2
+    /\ \A b1 \in bs : b1.name \notin StdNames
 
 \* every reference, as written in its file, resolves to the intended global of the intended file
 RefsResolve(d) == \A q \in DOMAIN d.files :
-    LET f == d.files[q].path
-        bs == Bindings(f, d.files[q].stmts, d.gl) IN
+    LET f == d.files[q].path IN
     \A y \in Range(d.files[q].items) : \A x \in RefsOf[d.p][y] :
-        Resolve(bs, RefFor(d, f, x), d.gl) = [file |-> d.place[x], item |-> x]
+        Resolve(f, d.stm, RefFor(d, f, x), d.gl) = [file |-> d.place[x], item |-> x]
 
 \* a name that was not imported is not visible: the bare name of a global of another file resolves, if at all,
 \* to the file's own same-named decoy, never to the other file's global; and no twin reference resolves
 NotImportedInvisible(d) ==
     /\ \A q \in DOMAIN d.files :
-          LET f == d.files[q].path
-              bs == Bindings(f, d.files[q].stmts, d.gl) IN
+          LET f == d.files[q].path IN
           \A x \in DOMAIN d.place :
-              LET r == Resolve(bs, [ns |-> "", name |-> x], d.gl) IN
+              LET r == Resolve(f, d.stm, [ns |-> <<>>, name |-> x], d.gl) IN
               (d.place[x] # f /\ r # Unresolved /\ r.file # f) =>
                   \E j \in DOMAIN d.edges : d.edges[j].f = f /\ d.edges[j].x = x /\ d.edges[j].st = "from"
     /\ \A q \in DOMAIN d.twins :
-          Resolve(Bindings(d.twins[q].file, d.twins[q].stmts, d.gl), [ns |-> d.twins[q].ns, name |-> d.twins[q].name], d.gl) = Unresolved
+          Resolve(d.twins[q].file, [d.stm EXCEPT ![d.twins[q].file] = d.twins[q].stmts],
+                  [ns |-> d.twins[q].ns, name |-> d.twins[q].name], d.gl) = Unresolved
     /\ Len(d.edges) > 0 => Len(d.twins) >= 1
+    \* a file reaches through a chain only what the files on the way import themselves
+    /\ \A j \in DOMAIN d.edges : Len(d.edges[j].via) > 0 =>
+          /\ d.edges[j].via[1] \in Range(d.imp[d.edges[j].f])
+          /\ \A q \in 1..Len(d.edges[j].via) :
+                (IF q = Len(d.edges[j].via) THEN d.edges[j].g ELSE d.edges[j].via[q + 1]) \in Range(d.imp[d.edges[j].via[q]])
 
 \* each file once in the load sequence; exactly the files reachable through imports; all files that hold globals
 LoadOnce(d) ==
@@ -484,6 +581,7 @@ ItemReach(p, xs) == LET nx == xs \cup UNION {RefsOf[p][x] : x \in xs} IN IF nx =
 ProgramsOK ==
     /\ \A p \in 1..NProgs : ItemReach(p, {"start"}) = Range(TopNames(p))
     /\ \A p \in 1..NProgs : Cardinality(Range(TopNames(p))) = Len(Prog(p)) /\ NI(p) \in 3..5
+    /\ ProgSet \subseteq 1..NProgs
     /\ \A p \in 1..NProgs : Expected[p].status = "done" /\ Len(Expected[p].out) >= 2
     /\ \A p \in 1..NProgs : \A q \in 1..Len(Expected[p].prints) : Expected[p].prints[q] # "?"
 
